@@ -11,6 +11,7 @@ from ..world import World
 
 PID = 'C07'
 CB_FAULT = 'application callback fault'
+SEND_FAULT = 'injected transport send fault'
 RULE = ('2-4 hosts (real Server/AsyncServer + PubSubManager/'
         'AsyncPubSubManager subclasses over an in-memory ordered channel '
         'carrying pickled messages, the real listener loop body run per '
@@ -31,7 +32,9 @@ RULE = ('2-4 hosts (real Server/AsyncServer + PubSubManager/'
         'callbacks may raise or (asyncio) end with CancelledError; a '
         'listener loop that ends for any reason but end-of-stream, and a '
         'channel that grows beyond any legitimate history (hosts answering '
-        'each other), are violations. Non-trivial: >=2 hosts with '
+        'each other), are violations; on the asyncio side the send to one '
+        'client of the issuing host may fail during an emit (cluster and '
+        'single server alike). Non-trivial: >=2 hosts with '
         'clients, an op issued on a host that does not own the target, and '
         'a cross-host callback or a room with members on two hosts (delayed: '
         'a membership change inside a flight window).')
@@ -73,6 +76,13 @@ def strategy(tier):
         st.fixed_dictionaries({'op': st.just('emit'), 'via': hi, 'to': to,
                                'ns': st.integers(0, 1),
                                'skip': st.none(), 'data': st.just('x')}),
+        # asyncio: the send to one client of the issuing host fails (its
+        # socket is closed, the disconnect not processed yet); everybody
+        # else is served as usual
+        st.fixed_dictionaries({'op': st.just('emit'), 'via': hi, 'to': to,
+                               'ns': st.integers(0, 1),
+                               'skip': st.none(), 'data': st.just('y'),
+                               'fail': ci}),
         st.fixed_dictionaries({'op': st.just('emit_cb'), 'via': hi, 'c': ci}),
         st.fixed_dictionaries({'op': st.just('emit_cb'), 'via': hi, 'c': ci}),
         # a client joins the room named after another client's session id,
@@ -305,6 +315,7 @@ def _run(case, cl, ref):
                                                       namespace=rc['ns']))
         return did
 
+    failed_ci = [None]
     all_ops = list(case['ops'])
     snapshot()      # snapshots[0]: initial state; snapshots[s+1]: after step s
 
@@ -390,11 +401,42 @@ def _run(case, cl, ref):
                     cross_host[0] = True
                 else:
                     via = cl.hosts[op['via'] % nh]
-                    via.h.do(via.sio.emit('ev', data, namespace=ns,
-                                          skip_sid=sk_c, **kw_c))
-                ref.do(ref.sio.emit('ev', data, namespace=ns, skip_sid=sk_r,
-                                    **kw_r))
+                    undo = []
+                    failed_ci[0] = None
+                    if aio and op.get('fail') is not None and lv:
+                        fi = lv[op['fail'] % len(lv)]
+                        if cl.clients[fi]['host'] == via.idx:
+                            for eio, tgt in (
+                                    (via.sio.eio, cl.clients[fi]['t']),
+                                    (ref.sio.eio, ref.t[rtrans[fi]])):
+                                real = eio.send_packet
+
+                                async def failing(sid, pkt, real=real,
+                                                  tgt=tgt):
+                                    if sid == tgt:
+                                        raise RuntimeError(SEND_FAULT)
+                                    return await real(sid, pkt)
+                                eio.send_packet = failing
+                                undo.append((eio, real))
+                            labels['local_send_fails'] = True
+                            failed_ci[0] = fi
+                    try:
+                        via.h.do(via.sio.emit('ev', data, namespace=ns,
+                                              skip_sid=sk_c, **kw_c))
+                    except RuntimeError as e:
+                        if SEND_FAULT not in str(e):
+                            raise
+                try:
+                    ref.do(ref.sio.emit('ev', data, namespace=ns,
+                                        skip_sid=sk_r, **kw_r))
+                except RuntimeError as e:
+                    if SEND_FAULT not in str(e):
+                        raise
+                for eio, real in (undo if op['via'] != 'wo' else []):
+                    eio.send_packet = real
                 emits[tag[0]] = {'step': step, 'ns': ns, 'to': kw_r.get('to'),
+                                 'failed': failed_ci[0] if op['via'] != 'wo'
+                                 else None,
                                  'skip': sk_r, 'via': op['via'],
                                  'cursors': cursors_before,
                                  'idx': len(cl.bus) - 1}
@@ -664,6 +706,7 @@ def _flight_oracle(cl, ref, received, emits, snapshots, member_steps,
                 labels['raced_emit'] = True
                 continue
             want = _addressed(snapshots[min(p + 1, last)], ref, e) & mine
+            want.discard(e.get('failed'))
             if mine_got != want:
                 raise Violation(
                     'unraced-delivery-differs',
